@@ -141,6 +141,20 @@ func (t *websocketTransport) Close() error {
 	if conn == nil {
 		return errors.New("transport is not open")
 	}
+
+	// Closing the socket with inbound data unread or on its way resets the connection, and the
+	// peer then loses what was sent to it last - typically the envelope that ends the session.
+	// The peer is told first (close frame) and what it still sends is discarded until it closes
+	// its side, for a bounded time.
+	deadline := time.Now().Add(closeLinger)
+	if conn.WriteControl(websocket.CloseMessage, websocket.FormatCloseMessage(websocket.CloseNormalClosure, ""), deadline) == nil {
+		_ = conn.SetReadDeadline(deadline)
+		for {
+			if _, _, err := conn.NextReader(); err != nil {
+				break
+			}
+		}
+	}
 	return conn.Close()
 }
 
